@@ -19,13 +19,15 @@ func init() {
 		Explanation: "C32.a WHO: the raft configuration is mutated in the module only through AddVoter/AddNonvoter (Store.Join), RemoveServer (Store.remove), BootstrapCluster (Bootstrap, Notify) and the recovery path (RecoverNode); inside hashicorp/raft those entry points reach checkConfiguration (nextConfiguration, BootstrapCluster, RecoverCluster — re-derived from the module source), which rejects duplicate IDs and addresses. " +
 			"C32.b DECIDE: Store.Join's loop over the current configuration is interpreted for all valuations of {more entries, ID equal, address equal, removal ok}: an entry equal in both ID and address makes the join a no-op, an entry equal in exactly one is removed before the add, scanning continues over all entries, and the add is AddVoter exactly when the request's Voter flag is set, AddNonvoter otherwise. " +
 			"C32.c DECIDE: the failed-heartbeat observer removes a node iff (read replica ∧ ReapReadOnlyTimeout>0 ∧ silence>ReapReadOnlyTimeout) ∨ (voter ∧ ReapTimeout>0 ∧ silence>ReapTimeout), and only if the node is present in the configuration. " +
-			"C32.d DOM: RecoverNode validates the supplied configuration (checkRaftConfiguration rejects duplicate IDs/addresses and voter-less sets) before anything else.",
+			"C32.d DOM: RecoverNode validates the supplied configuration (checkRaftConfiguration rejects duplicate IDs/addresses and voter-less sets) before anything else. " +
+			"C32.e CONST: in cmd/rqlited the store's ReapTimeout and ReapReadOnlyTimeout are assigned from their own configuration settings and from nothing else (an unset timeout means that kind of node is never reaped).",
 		NotCovered: []string{"histories on live clusters", "that the entry removed for an address-only match is the stale one (the join then fails on raft's duplicate-address check; uniqueness still holds)"},
 		Run:        runC32,
 	})
 }
 
 func runC32(c *core.Ctx) {
+	c32e(c)
 	const rp = "github.com/hashicorp/raft"
 	// C32.a
 	muts := map[string][]string{}
